@@ -649,7 +649,13 @@ func (fr *Frame) sliceOp(x *ssa.Slice, st *State, g *Term) *Term {
 			c.warn("slice expression with explicit high bound: capacity not modelled (%s)", c.posOf(x.Pos()))
 		}
 		ng := fr.mayPanicIfNew(g, cond, st, "slice", x.Pos(), "slice bounds out of range")
-		fr.vals[x] = tv(c.define(x.Name(), mk(SSlice, fmt.Sprintf("(mk-slice (s.arr %s) (+ (s.off %s) %s) (- %s %s))", s.S, s.S, lo.S, hi.S, lo.S))))
+		sub := c.define(x.Name(), mk(SSlice, fmt.Sprintf("(mk-slice (s.arr %s) (+ (s.off %s) %s) (- %s %s))", s.S, s.S, lo.S, hi.S, lo.S)))
+		fr.vals[x] = tv(sub)
+		if !strings.Contains(s.S, "q!") && !strings.Contains(lo.S, "q!") {
+			// an index into the sub-slice is an index into the sliced slice: gives facts quantified over the indices of
+			// the original slice (forall k :: ... s[k] ...) an instance for every element read through the sub-slice
+			c.assumeG(g, mk(SBool, fmt.Sprintf("(forall ((j Int)) (! (= (sidx %s j) (sidx %s (+ %s j))) :pattern ((sidx %s j))))", sub.S, s.S, lo.S, sub.S)))
+		}
 		return ng
 	case *types.Pointer: // pointer to array
 		arr := xt.Elem().Underlying().(*types.Array)
